@@ -35,7 +35,7 @@ func run(raw json.RawMessage) (hx.Case, error) {
 		ss[i] = engsim.CoqSeg(g)
 	}
 	c.Coq = hx.App("mk_case2", engsim.CoqProg(in.S.Prog), hx.N(in.S.Cap), engsim.CoqInit(in.S.Init),
-		hx.LN(in.Bounds), hx.L(ss), engsim.CoqSeg(single))
+		hx.N(in.S.T0), hx.B(in.S.Hooks), hx.LN(in.Bounds), hx.L(ss), engsim.CoqSeg(single))
 	st := engsim.Analyse(segs)
 	c.Tags = st.Tags(in.S.Hooks)
 	// classify the boundaries against the event times of the single run
@@ -185,7 +185,7 @@ func directed() []input {
 }
 
 func gen(r *hx.Rand, tier string) []json.RawMessage {
-	n, nbig := 300, 6
+	n, nbig := 450, 8
 	if tier == "thorough" {
 		n, nbig = 8000, 300
 	}
@@ -224,8 +224,8 @@ func shrink(raw json.RawMessage) []json.RawMessage {
 func init() {
 	hx.Register(&hx.Prop{
 		ID: "C02",
-		Rule: "the C01 handler scripts (mixed, equal-time bursts, same-instant chains, long chains, a malformed share with a past-time " +
-			"Schedule) plus a boundary list of 0-40 times drawn from the event times of the script's own single run: at an event time, " +
+		Rule: "the C01 handler scripts (mixed, equal-time bursts, same-instant chains, long chains, a malformed share: past-time " +
+			"Schedule or SetCurrentTime after a queued event, both panic) plus a boundary list of 0-40 times drawn from the event times of the script's own single run: at an event time, " +
 			"between event times, one below/above an event time, beyond the last event; increasing with natural or forced repeats, " +
 			"and a share in arbitrary (also decreasing) order; directed boundaries around a 10,20,..,100 chain. The real engine runs " +
 			"RunUntil(b1);..;RunUntil(bk);Run() and, freshly built, a single Run(). Non-trivial: at least two RunUntil calls handle " +
